@@ -554,8 +554,12 @@ impl SrtlaConnection {
     }
 
     /// Whether this link is eligible for packet scheduling.
+    ///
+    /// A link the receiver rejected (REG_ERR) is disconnected but keeps its
+    /// phase until housekeeping re-registers it; it must not count as a
+    /// candidate (or as a "healthy" alternative for the stall gate) meanwhile.
     pub fn is_schedulable(&self) -> bool {
-        self.phase.is_schedulable()
+        self.connected && self.phase.is_schedulable()
     }
 
     /// Scheduling weight contributed by this link's phase
